@@ -186,6 +186,32 @@ func (e *framingEngine) Exec(line string) (obs string, viol string) {
 		}
 		obs = e.rxCase(chunks)
 		// the close frame is observable only as "nothing after it": the model prints `c`; align
+		// Monitor (oracle on the real execution only): a stream that is nothing but whole frames with lengths in
+		// 1..4 MiB must yield one outcome per frame - delivered or undecodable - and never "invalid length".
+		var stream []byte
+		for _, ch := range chunks {
+			stream = append(stream, ch...)
+		}
+		if n, ok := wholeFrames(stream); ok && n > 0 {
+			got, invalid := 0, false
+			if obs != "" && obs != "-" {
+				for _, tok := range strings.Split(obs, ",") {
+					got++
+					if tok == "i" {
+						invalid = true
+					}
+				}
+			}
+			if got != n || invalid {
+				var lens []string
+				for p := 0; p+4 <= len(stream); {
+					l := int(binary.BigEndian.Uint32(stream[p:]))
+					lens = append(lens, fmt.Sprint(l))
+					p += 4 + l
+				}
+				return obs, fmt.Sprintf("FRAME-LOST: a healthy stream of %d whole frames (body lengths %s, all within the 4 MiB limit) read in %d chunk(s) produced the outcomes `%s`", n, strings.Join(lens, ","), len(chunks), obs)
+			}
+		}
 		return obs, ""
 	case "burst":
 		// burst <messages> <senders>: two real systems on loopback
@@ -208,6 +234,24 @@ func (e *framingEngine) Exec(line string) (obs string, viol string) {
 		return "-", loopbackBurst(1, 1, 10500*time.Millisecond)
 	}
 	return "bad-op", ""
+}
+
+// wholeFrames reports whether the stream consists only of complete frames whose length prefix is in 1..4 MiB
+// (no close frame, no oversized prefix, no cut) and how many there are.
+func wholeFrames(s []byte) (int, bool) {
+	n := 0
+	for p := 0; p < len(s); {
+		if p+4 > len(s) {
+			return 0, false
+		}
+		l := int(binary.BigEndian.Uint32(s[p:]))
+		if l < 1 || l > 4*1024*1024 || p+4+l > len(s) {
+			return 0, false
+		}
+		p += 4 + l
+		n++
+	}
+	return n, true
 }
 
 // ---- loopback monitor
